@@ -13,6 +13,12 @@ pub const T_SCHED: u32 = 1;
 pub const T_STEP: u32 = 2;
 pub const T_GC: u32 = 4;
 pub const T_CHAN: u32 = 8;
+/// step events also carry operand values (top of stack, addressed slots, referenced constants)
+pub const T_VAL: u32 = 16;
+/// one event per peephole rewrite the optimizer applies
+pub const T_OPT: u32 = 32;
+/// one event per assembled instruction (symbolic instruction and its encoding)
+pub const T_ASM: u32 = 64;
 
 #[derive(Clone, Debug)]
 pub enum GcPlan {
@@ -375,6 +381,7 @@ pub struct StepGuard {
     pub b0: usize,
     pub f0: usize,
     pub r0: bool,
+    pub vals0: Option<String>,
 }
 
 impl StepGuard {
@@ -389,8 +396,127 @@ impl StepGuard {
             b0: vm.stack_base,
             f0: vm.call_stack.len(),
             r0: vm.string_op_index1 != 0 || vm.string_op_index2 != 0,
+            vals0: if on(T_VAL) { Some(step_vals(vm, vm.pc.0, vm.stack_base, true)) } else { None },
         })
     }
+}
+
+fn json_str(s: &str) -> String {
+    let mut o = String::with_capacity(s.len() + 2);
+    o.push('"');
+    for c in s.chars() {
+        match c {
+            '"' => o.push_str("\\\""),
+            '\\' => o.push_str("\\\\"),
+            c if (c as u32) < 0x20 || (c as u32) > 0x7e => o.push_str(&format!("\\u{:04x}", (c as u32) & 0xffff)),
+            c => o.push(c),
+        }
+    }
+    o.push('"');
+    o
+}
+
+/// the integers that occur in the Debug text of an instruction
+fn debug_nums(dbg: &str) -> Vec<i64> {
+    dbg.split(|c: char| !(c.is_ascii_digit() || c == '-'))
+        .filter_map(|s| s.parse::<i64>().ok())
+        .collect()
+}
+
+fn val_short(v: &Value) -> String {
+    match v.1 {
+        ValueTag::Int => format!(r#"{{"t":"i","v":"{}"}}"#, v.0 as i64),
+        ValueTag::Float => format!(r#"{{"t":"f","v":"{}"}}"#, v.0),
+        ValueTag::Bool => format!(r#"{{"t":"b","v":"{}"}}"#, v.0),
+        t => format!(r#"{{"t":"r","v":"{}{}"}}"#, tag_name(t), v.0),
+    }
+}
+
+/// Uninterpreted projection of the state an instruction can touch: the top four stack values, the frame slots named by
+/// any number in the instruction (read as a stack offset relative to `base`), and (before only) the constants any number
+/// in it indexes.  Which of these the instruction really uses is for the specification to say.
+fn step_vals(vm: &VmGreenThread, pc: u32, base: usize, before: bool) -> String {
+    let n = vm.value_stack.len();
+    let top: Vec<String> = vm.value_stack[n.saturating_sub(4)..].iter().map(val_short).collect();
+    let mut out = format!(r#""top":[{}]"#, top.join(","));
+    let Some(instr) = vm.shared.program.get(pc as usize) else {
+        return out;
+    };
+    let nums = debug_nums(&format!("{:?}", instr));
+    let mut slots: Vec<String> = vec![];
+    let mut ki: Vec<String> = vec![];
+    let mut kf: Vec<String> = vec![];
+    let mut seen: Vec<i64> = vec![];
+    for x in nums {
+        if seen.contains(&x) {
+            continue;
+        }
+        seen.push(x);
+        // a register operand: high bit = top of stack, otherwise a 15-bit signed offset; a plain i16 offset is itself
+        let off: Option<i64> = if x < 0 {
+            Some(x)
+        } else if x >= 0x8000 {
+            None
+        } else if x >= 0x4000 {
+            Some(x - 0x8000)
+        } else {
+            Some(x)
+        };
+        if let Some(off) = off {
+            let idx = base as i64 + off;
+            if idx >= 0 && (idx as usize) < n {
+                slots.push(format!(r#""{}":{}"#, x, val_short(&vm.value_stack[idx as usize])));
+            }
+        }
+        if before && x >= 0 {
+            if let Some(k) = vm.shared.int_constants.get(x as usize) {
+                ki.push(format!(r#""{}":"{}""#, x, k));
+            }
+            if let Some(k) = vm.shared.float_constants.get(x as usize) {
+                kf.push(format!(r#""{}":"{}""#, x, k.to_bits()));
+            }
+        }
+    }
+    out.push_str(&format!(r#","slots":{{{}}}"#, slots.join(",")));
+    if before {
+        out.push_str(&format!(r#","ki":{{{}}},"kf":{{{}}}"#, ki.join(","), kf.join(",")));
+    }
+    out
+}
+
+/// optimizer hook: one peephole rewrite (`before` lines replaced by `after` lines)
+pub(crate) fn on_rewrite(before: &[crate::assembly::Line], after: &[crate::assembly::Line]) {
+    ev(T_OPT, || {
+        let show = |ls: &[crate::assembly::Line]| -> String {
+            ls.iter()
+                .map(|l| match l {
+                    crate::assembly::Line::Instr { instr, .. } => json_str(&format!("{:?}", instr)),
+                    crate::assembly::Line::Label(l) => json_str(&format!("Label({:?})", l)),
+                })
+                .collect::<Vec<_>>()
+                .join(",")
+        };
+        format!(r#"{{"e":"rewrite","before":[{}],"after":[{}]}}"#, show(before), show(after))
+    });
+}
+
+/// assembler hook: instruction `idx` of the program, symbolic form and encoding; `ints` / `floats` / `labels` are the
+/// constants and label positions its numbers may refer to
+pub(crate) fn on_assemble(idx: usize, asm: String, vm: String, ints: Vec<(i64, i64)>, floats: Vec<(i64, String)>, labels: Vec<(String, usize)>) {
+    ev(T_ASM, || {
+        let ki: Vec<String> = ints.iter().map(|(i, k)| format!(r#""{}":"{}""#, i, k)).collect();
+        let kf: Vec<String> = floats.iter().map(|(i, k)| format!(r#""{}":{}"#, i, json_str(k))).collect();
+        let lb: Vec<String> = labels.iter().map(|(l, i)| format!(r#"{}:{}"#, json_str(l), i)).collect();
+        format!(
+            r#"{{"e":"asm","i":{},"asm":{},"vm":{},"ki":{{{}}},"kf":{{{}}},"labels":{{{}}}}}"#,
+            idx,
+            json_str(&asm),
+            json_str(&vm),
+            ki.join(","),
+            kf.join(","),
+            lb.join(",")
+        )
+    });
 }
 
 fn tag_name(t: ValueTag) -> &'static str {
@@ -434,9 +560,26 @@ impl Drop for StepGuard {
             .iter()
             .map(|v| format!("\"{}\"", tag_name(v.1)))
             .collect();
+        let vals = match &self.vals0 {
+            // the slots are read relative to the frame base the instruction started with
+            Some(v0) if !std::thread::panicking() => {
+                let ek = match &vm.error {
+                    Some(e) => format!("{:?}", e.kind),
+                    None => String::new(),
+                };
+                format!(
+                    r#","dbg":{},"ek":{},"v0":{{{}}},"v1":{{{}}}"#,
+                    json_str(&dbg),
+                    json_str(&ek),
+                    v0,
+                    step_vals(vm, self.pc, self.b0, false)
+                )
+            }
+            _ => String::new(),
+        };
         ev(T_STEP, || {
             format!(
-                r#"{{"e":"step","tid":{},"pc":{},"op":"{}","a":[{}],"d0":{},"d1":{},"b0":{},"b1":{},"f0":{},"f1":{},"pc1":{},"st":"{}","r0":{},"top":[{}]}}"#,
+                r#"{{"e":"step","tid":{},"pc":{},"op":"{}","a":[{}],"d0":{},"d1":{},"b0":{},"b1":{},"f0":{},"f1":{},"pc1":{},"st":"{}","r0":{},"top":[{}]{}}}"#,
                 tid_of(vm.id),
                 self.pc,
                 op,
@@ -450,7 +593,8 @@ impl Drop for StepGuard {
                 vm.pc.0,
                 st,
                 self.r0,
-                top.join(",")
+                top.join(","),
+                vals
             )
         });
     }
